@@ -260,7 +260,91 @@ fn doomed_in_sheet(b: &umya::Spreadsheet, op: &Op) -> BTreeSet<String> {
     out
 }
 
+/// A file of the corpus opened lazily, some sheets materialised, every text cell of one of them overwritten,
+/// saved: the texts that only that sheet showed are gone from the package (no non-empty shared string is left
+/// without a cell that refers to it), and the new texts are there.
+fn execute_corpus(case: &Value) -> Outcome {
+    let mut out = Outcome::default();
+    let bytes = match crate::c11::source_bytes(case) {
+        Ok(b) => b,
+        Err(e) => {
+            out.harness_error = Some(e);
+            return out;
+        }
+    };
+    let lazy = case["lazy"].as_bool().unwrap_or(true);
+    let light = case["light"].as_bool().unwrap_or(false);
+    let mut book = match guarded(|| world::load_mem(&bytes, !lazy)) {
+        Ok(Ok(b)) => b,
+        _ => {
+            out.probe("corpus_file_unreadable");
+            return out;
+        }
+    };
+    let n = book.get_sheet_count();
+    if n == 0 {
+        return out;
+    }
+    let r = guarded(|| {
+        for i in case["materialise"].as_array().cloned().unwrap_or_default() {
+            let _ = book.get_sheet_mut(&((i.as_u64().unwrap_or(0) as usize) % n));
+        }
+        let w = (case["wipe"].as_u64().unwrap_or(0) as usize) % n;
+        let mut wiped = 0u64;
+        if let Some(ws) = book.get_sheet_mut(&w) {
+            let coords: Vec<(u32, u32)> = ws.get_cell_collection().iter().filter(|c| c.get_data_type() == "s" && c.get_formula().is_empty()).map(|c| (*c.get_coordinate().get_col_num(), *c.get_coordinate().get_row_num())).collect();
+            for (k, (c, r)) in coords.iter().enumerate() {
+                ws.get_cell_mut((*c, *r)).set_value_string(format!("~h0s{}~w", k));
+                wiped += 1;
+            }
+        }
+        wiped
+    });
+    let wiped = match r {
+        Ok(w) => w,
+        Err(_) => {
+            out.probe("edit_panics");
+            return out;
+        }
+    };
+    out.step("cells_wiped", wiped);
+    for round in 0..2 {
+        let saved = match guarded(|| world::save_mem(&book, light)) {
+            Ok(Ok(b)) => b,
+            Ok(Err(e)) => {
+                out.violate(Verdict::new("C12", "C12:save-failed", &[("origin", "corpus")], e));
+                return out;
+            }
+            Err(p) => {
+                out.violate(Verdict::new("C12", "C12:save-panics", &[("origin", "corpus")], p.chars().take(200).collect::<String>()));
+                return out;
+            }
+        };
+        out.step("corpus_saves", 1);
+        match decode::decode(&saved) {
+            Err(e) => out.violate(Verdict::new("C12", "C12:corrupt-file", &[("origin", "corpus")], e)),
+            Ok(d) => {
+                if let Some((idx, text)) = d.unreferenced_strings().first() {
+                    out.violate(Verdict::new(
+                        "C12",
+                        "C12:leak-unreferenced",
+                        &[("origin", "corpus")],
+                        format!("save {}: shared string #{} {:?} is stored although no cell of any sheet refers to it", round, idx, text.chars().take(60).collect::<String>()),
+                    ));
+                    break;
+                }
+            }
+        }
+    }
+    out.nontrivial = wiped > 0;
+    out.signature = format!("corpus|{}|{}|{}|{}", case["source"]["file"], case["materialise"], case["wipe"], lazy);
+    out
+}
+
 pub fn execute(case: &Value, _scratch: &str) -> Outcome {
+    if case["source"]["kind"] == "corpus" {
+        return execute_corpus(case);
+    }
     let mut out = Outcome::default();
     let steps: Vec<Step> = serde_json::from_value(case["steps"].clone()).unwrap_or_default();
     let nsheets = case["sheets"].as_u64().unwrap_or(1).max(1);
@@ -435,6 +519,15 @@ pub fn execute(case: &Value, _scratch: &str) -> Outcome {
                     match decode::decode(&bytes) {
                         Err(e) => out.violate(Verdict::new("C12", "C12:corrupt-file", &[("raw_sheets_at_save", rawf)], format!("step {}: handle {}: {}", k, i, e))),
                         Ok(d) => {
+                            // nothing is stored that no cell shows: every non-empty shared string is referred to
+                            if let Some((idx, text)) = d.unreferenced_strings().first() {
+                                out.violate(Verdict::new(
+                                    "C12",
+                                    "C12:leak-unreferenced",
+                                    &[("raw_sheets_at_save", rawf)],
+                                    format!("step {}: file saved from handle {} stores shared string #{} {:?} although no cell of any sheet refers to it", k, i, idx, text.chars().take(60).collect::<String>()),
+                                ));
+                            }
                             // tags found anywhere in the package
                             let found = file_tags.clone();
                             // history oracle: text an operation deleted from this workbook must be gone,
@@ -556,6 +649,18 @@ pub fn cases(run_seed: u64, tier: &str, _scratch: &str) -> Vec<Value> {
     let mut wl = Rng::stream(run_seed, "workload");
     let n_hist = if tier == "thorough" { 24 } else { 12 };
     let mut out = Vec::new();
+    // one case per run on a file of the corpus (foreign producers: duplicate and unreferenced table entries,
+    // phonetic runs, ...)
+    let picked = if sw.chance(1, 2) { crate::c11::pick_corpus_file(&mut sw, "quick") } else { None };
+    if let Some(f) = picked {
+        let mut c = new_case("C12", crate::rng::mix(run_seed, 0xc0));
+        c["source"] = json!({"kind": "corpus", "file": f});
+        c["lazy"] = json!(sw.chance(3, 4));
+        c["light"] = json!(sw.chance(1, 4));
+        c["materialise"] = json!((0..sw.usize(4)).map(|_| sw.below(8)).collect::<Vec<_>>());
+        c["wipe"] = json!(sw.below(8));
+        out.push(c);
+    }
     for _ in 0..n_hist {
         let sheets = 1 + sw.usize(3);
         let ncells = 2 + sw.usize(8);
